@@ -89,6 +89,17 @@ def expectedStmts : List (String × Nat × String) :=
    ("Min.agg", 0, "if self not in tree or target < tree[self]"),
    ("Min.agg", 1, "tree[self] = target"),
    ("Min.agg", 0, "return tree[self]"),
+   ("Sample.agg", 0, "if self not in tree"),
+   ("Sample.agg", 1, "tree[self] = [0, []]"),
+   ("Sample.agg", 0, "num_seen, sample = tree[self]"),
+   ("Sample.agg", 0, "if len(sample) < self.size"),
+   ("Sample.agg", 1, "sample.append(target)"),
+   ("Sample.agg", 0, "else"),
+   ("Sample.agg", 1, "pos = random.randint(0, num_seen)"),
+   ("Sample.agg", 1, "if pos < self.size"),
+   ("Sample.agg", 2, "sample[pos] = target"),
+   ("Sample.agg", 0, "tree[self][0] += 1"),
+   ("Sample.agg", 0, "return sample"),
    ("Limit.glomit", 0, "if scope[MODE] is not GROUP"),
    ("Limit.glomit", 1, "raise BadSpec"),
    ("Limit.glomit", 0, "tree = scope[ACC_TREE]"),
@@ -125,9 +136,26 @@ def expectedStmts : List (String × Nat × String) :=
 /-- aggregator objects carry no state of their own (`__slots__ = ()`); Limit keeps only its
     constructor arguments: all accumulation state lives in the tree -/
 def expectedSlots : List (String × String) :=
-  [("First", "()"), ("Avg", "()"), ("Max", "()"), ("Min", "()"), ("Limit", "('n', 'subspec')")]
+  [("First", "()"), ("Avg", "()"), ("Max", "()"), ("Min", "()"), ("Sample", "('size',)"),
+   ("Limit", "('n', 'subspec')")]
 
-def WFSrc (stmts : List (String × Nat × String)) (slots : List (String × String)) : Bool :=
-  stmts == expectedStmts && slots == expectedSlots
+/-- module-level state of glom/grouping.py: the two sentinels and nothing else.  GROUP, the
+    aggregators and Group.glomit have no table to remember anything in between two calls /
+    two evaluations (the model has no such state either: `evalHistory`). -/
+def expectedGlobals : List (String × String) :=
+  [("ACC_TREE", "make_sentinel('ACC_TREE')"), ("CUR_AGG", "make_sentinel('CUR_AGG')")]
+
+/-- the arithmetic arms of `_t_eval`: every one REBINDS `cur` to the value of a binary / unary
+    expression (never an augmented assignment, which would change a mutable operand — an item
+    of the caller's target — in place): `TOp.apply` returns a new value, `Heap.tstep` allocates -/
+def expectedTArith : List (String × String) :=
+  [("+", "cur = cur + arg"), ("-", "cur = cur - arg"), ("*", "cur = cur * arg"), ("#", "cur = cur // arg"),
+   ("/", "cur = cur / arg"), ("%", "cur = cur % arg"), (":", "cur = cur ** arg"), ("&", "cur = cur & arg"),
+   ("|", "cur = cur | arg"), ("^", "cur = cur ^ arg"), ("~", "cur = ~cur"), ("_", "cur = -cur")]
+
+def WFSrc (stmts : List (String × Nat × String)) (slots : List (String × String))
+    (globals : List (String × String)) (globalStmts : List String) (tArith : List (String × String)) : Bool :=
+  stmts == expectedStmts && slots == expectedSlots && globals == expectedGlobals &&
+  globalStmts.isEmpty && tArith == expectedTArith
 
 end Glom.C16
